@@ -102,7 +102,9 @@ def slow_reader_scenarios(logs, rnd, nlogs, interceptors=0, family="slow"):
             for at in range(0, min(n, 4)):
                 for buf in (0, 1):
                     lg = add_codec(log, rnd)
-                    cfg = dict(version=pick_version(log, rnd), iso="ru", fetchDefault=1 << 20, chanBuf=buf, maxProcMs=20,
+                    # (a small fetch size cuts the log into several responses: the slow path is followed by further responses)
+                    cfg = dict(version=pick_version(log, rnd), iso="ru", fetchDefault=(1 << 20) if (at + buf) % 2 else rnd.choice([70, 130]),
+                               chanBuf=buf, maxProcMs=20,
                                leaders=[1, 1], nbrokers=1, interceptors=interceptors)
                     out.append({"name": "%s-%d-at%d-%dms-b%d" % (family, i, at, stall_ms, buf), "family": family, "cfg": cfg,
                                 "logs": {"0": lg, "1": add_codec(log, rnd)},
